@@ -248,6 +248,10 @@ func (fs *FS) Remove(name string) error {
 	if err != nil {
 		return fs.wrapperErr("remove", name, err)
 	}
+	if name == "." {
+		// the root directory must always exist
+		return fs.wrapperErr("remove", name, hackpadfs.ErrInvalid)
+	}
 
 	if file.Mode().IsDir() {
 		dirNames, err := file.ReadDirNames()
